@@ -389,7 +389,7 @@ def panicking_handler(env):
     if not fails and len(views) != 6:
         raise Undecided('panicking_handler scenario reported %d views' % len(views))
     return dict(name='panicking_handler', validates='what the connection manager and the per-connection handler do when a request task panics (their select! loops are outside every contract), on three real nodes', cases=len(views), failed=fails, ok=not fails,
-                props=['C09'], clause='after connectivity has been fault-free for longer than the idle timeout, A lists B iff B lists A, and every listed peer can be reached by RPC')
+                props=['C09', 'C08'], clause='after connectivity has been fault-free for longer than the idle timeout, A lists B iff B lists A, and every listed peer can be reached by RPC')
 
 
 def busy_node_still_dials(env):
@@ -432,6 +432,53 @@ def abandoned_rpcs(env):
                 fails.append(dict(scenario='abandoned_rpcs', args=dict(phase=name), expected=dict(note='a started remote handler is dropped promptly (within the second the scenario waits) instead of running its 5 s to completion; abandoned RPCs use up no stream capacity; other RPCs in flight are not disturbed'), observed=x))
     return dict(name='abandoned_rpcs', validates='cancellation across the connection (stream reset / STOP_SENDING in quinn, the select in the serving task), which no contract covers: 4 ways of abandoning an RPC, 40 in a row against 4 concurrent streams, 1000 abandoned while waiting for a stream', cases=1045, failed=fails, ok=not fails,
                 props=['C12'], clause='when a caller abandons an RPC at any point, the remote handler, if it started, is dropped promptly instead of running to completion; any number of abandoned RPCs never exhausts stream capacity or blocks later RPCs; abandoning one RPC never affects others in flight')
+
+
+def shutdown_scenarios(env):
+    """C08 on real networks: a node with a slow inbound request being served, a slow outbound RPC, a dial hanging on a silent socket, a background dial
+    to a dead High-affinity peer, a subscriber, a weak reference and two connected peers is shut down explicitly / by dropping its last handle"""
+    fails, cases = [], 0
+    for variant in ('explicit', 'drop'):
+        got = _run('shutdown_scenario', dict(variant=variant), env, timeout=120)
+        cases += 1
+        why = []
+        if got.get('panicked'):
+            why.append('the scenario did not finish')
+        else:
+            sub = got.get('subscriber') or {}
+            lost = sorted(e.get('lost') for e in sub.get('events', []) if 'lost' in e)
+            if variant == 'explicit' and not got.get('shutdown_ok'):
+                why.append('shutdown() did not complete (idle-wait bound 1 s, waited 6 s)')
+            if got.get('down_after_ms', 10**9) > 4000:
+                why.append('shutting down took longer than the idle-wait bound of 1 s by far')
+            if variant == 'explicit' and (got.get('pending_dial') != 'error' or got.get('pending_outbound_rpc') != 'error'):
+                why.append('a call pending at shutdown did not return an error')
+            if got.get('pending_inbound_rpc_seen_by_remote') != 'error':
+                why.append('the remote caller of a request in service at shutdown was left hanging')
+            if got.get('rebind_after_ms') is None or got['rebind_after_ms'] > 1500:
+                why.append('the socket address cannot be re-bound at once')
+            if got.get('service_clones_after') != 1:
+                why.append('clones of the user\'s service survive the shutdown')
+            if len(lost) != sub.get('snapshot') or len(set(lost)) != len(lost) or not sub.get('stream_ended'):
+                why.append('a subscriber must receive a LostPeer for every connected peer and then end-of-stream')
+            if got.get('weak_reference_upgrades'):
+                why.append('a weak reference still upgrades')
+            if got.get('remote_peers_saw_disconnect') != [True, True]:
+                why.append('a remote peer did not observe the disconnect')
+            if variant == 'explicit':
+                ca = got.get('calls_after_shutdown') or {}
+                if not ca.get('is_closed') or ca.get('peers') != 0 or any(ca.get(k) != 'error' for k in ('connect', 'rpc', 'shutdown_again', 'disconnect')):
+                    why.append('after shutdown the network must report closed with no peers and every call must fail (not hang, not succeed)')
+        if why:
+            fails.append(dict(scenario='shutdown_scenario', args=dict(variant=variant), expected=dict(violated=why), observed=got))
+    got = _run('runtime_teardown', {}, env, timeout=120)
+    for m in got.get('moments') or [dict(moment='?', came_back_within_10s=False, panicked=True)]:
+        cases += 1
+        if m.get('panicked') or not m.get('came_back_within_10s'):
+            fails.append(dict(scenario='runtime_teardown', args=dict(moment=m.get('moment')), expected=dict(panicked=False, came_back_within_10s=True), observed=m))
+    return dict(name='shutdown_scenarios', validates='shutdown as a whole (task joins, channel closure, socket release, Drop order, runtime teardown), which no contract expresses: explicit and by dropping the last handle, with work of every kind in flight; the runtime torn down at 4 moments with handles alive',
+                cases=cases, failed=fails, ok=not fails, props=['C08'],
+                clause='shutting a network down completes within the idle-wait bound whatever is in flight; afterwards it reports closed with no peers, its address can be re-bound at once, every clone of the user\'s service has been dropped, subscribers receive their pending LostPeer events and then end-of-stream, weak references no longer upgrade, remote peers observe the disconnect; every call pending at or issued after shutdown returns an error; tearing down the runtime at any moment neither panics nor hangs')
 
 
 def decode_sweep(env):
